@@ -10,8 +10,9 @@ FAULT_KEYS = ('hold_data', 'split_delivery', 'forced_delivery', 'hold_connect', 
 
 
 def write(spec, tier, seed, agg, wall, n_viol, known_lines):
-    os.makedirs(os.path.join(batch.VERIF, 'evidence'), exist_ok=True)
-    path = os.path.join(batch.VERIF, 'evidence', f'{spec.check_id}.json')
+    edir = os.environ.get('DSIM_EVIDENCE_DIR') or os.path.join(batch.VERIF, 'evidence')
+    os.makedirs(edir, exist_ok=True)
+    path = os.path.join(edir, f'{spec.check_id}.json')
     samples = agg.samples[:4] or [{'note': 'no sample captured'}]
     cov = {
         'evaluations': agg.runs,
